@@ -33,6 +33,10 @@ claims={
         "OID values, one OID-guarded store per result field from the same element with its own size, index-consistent component loop over all 16 indices for every element (order independence), range gates before narrowing, sequence sizes, error and leftover checks on all asn1.Unmarshal sites, comma-ok assertions."),
  "C14":("type-driven bijection between policy message fields and option fields + range gates + exhaustive length-check table with same-named abi constants",
         "Every option field equals the same-named policy field, every policy field is consumed, 16-bit minimums are range-gated, and every byte-string option (including the minimum TEE TCB SVN) is length-checked with the abi constant of the same name before conversion succeeds."),
+ "C15":("must-pass-through gates over an access-path heap with opaque-call havoc (device writes) + provenance of request/response buffers",
+        "Two-step device protocol with the caller's report data and the device-written TD report relayed through full-width copies, all result/status/OutLen gates enforced for the success return, which is exactly hdr.Data[:OutLen] of the header the device wrote; provider results returned verbatim when supported, fallback otherwise; GetQuote parses exactly the raw bytes."),
+ "C19":("must-pass-through gates on main with no-return calls as terminators + exit-code table by dominance + typed-error wrap discipline + flag/field/size pairing table + non-nil population rule",
+        "Exit 0 only behind verification and validation with the effective options; exit codes by error source; typed download errors producible and preserved by every wrap (%w); errors.As drives code 3; each flag overrides exactly its same-named field with the right size and only when set; parseConfig leaves no nil sub-message."),
 }
 na={"C11":"acceptance of every honest quote is an existential, value-dependent completeness property; no structural necessary condition of it is both statically checkable and sensitive to realistic over-strict changes (DESIGN.md section 4/C11)"}
 setup="cd /verif/checker && GOFLAGS=-mod=mod GOPROXY=off GOSUMDB=off GOTOOLCHAIN=local GOWORK=off go build -o /verif/bin/tdxlint ./cmd/tdxlint"
